@@ -310,6 +310,9 @@ def run(prog, rep):
                                     bad = (f, x, f"`{norm(head(x))[:60]}` keeps state on an instance of {c.name}, whose instances are module-level objects used by every block;")
                                 if t.value.id in params and t.value.id not in rebound and f.kind in ("method", "setter") and f.name not in ("__eq__", "__init__"):
                                     bad = (f, x, f"`{norm(head(x))[:60]}` stores state on the object passed as `{t.value.id}` (an item can be held by several blocks: what one block writes on it, the others read);")
+                        if isinstance(x, ast.Call) and isinstance(x.func, ast.Attribute) and x.func.attr in MUT_METHODS and isinstance(x.func.value, ast.Name) \
+                                and x.func.value.id in params and x.func.value.id not in rebound and f.kind in ("method", "setter", "static", "classmethod", "function"):
+                            bad = (f, x, f"`{norm(x)[:60]}` changes the container passed as `{x.func.value.id}` (the caller's object: a second block filled from the same list finds it consumed);")
                         if isinstance(x, ast.Call) and isinstance(x.func, ast.Attribute) and x.func.attr in MUT_METHODS and isinstance(x.func.value, ast.Attribute) \
                                 and x.func.value.attr.startswith("_") and isinstance(x.func.value.value, ast.Name) and x.func.value.value.id not in (sn, "cls") \
                                 and f.kind in ("method", "setter") and x.func.value.value.id not in m.assigns:
